@@ -205,7 +205,7 @@ func init() {
 	fns := []string{"graph.ChromaticIndex", "graph.ChromaticNumber", "graph.dfsDsatur", "graph.GreedyColor", "graph.IsKColorable", "graph.Degeneracy"}
 	register(&propDef{
 		id:          "C09",
-		explanation: "Decides one narrow structural clause of 'come with valid witnesses': LIVE (a witness slice that ChromaticIndex, dfsDsatur/ChromaticNumber, GreedyColor, IsKColorable or Degeneracy allocates and returns is not allocated with a provably zero length, and at least one of the stores that populate it is statically reachable under E-PROVE's dominating-edge facts), plus READONLY (none of the C09 functions writes its graph argument) and EMIT (no write can reach the backing array of a clique AllMaximalCliques has already sent: writes go through the current iteration's own allocation only). Optimality, exactness and properness of the witnesses are value-level and not decided.",
+		explanation: "Decides one narrow structural clause of 'come with valid witnesses': LIVE (a witness slice that ChromaticIndex, dfsDsatur/ChromaticNumber, GreedyColor, IsKColorable or Degeneracy allocates and returns is not allocated with a provably zero length, and at least one of the stores that populate it is statically reachable under E-PROVE's dominating-edge facts), plus READONLY (none of the C09 functions writes its graph argument) and EMIT (no write can reach the backing array of a clique AllMaximalCliques has already sent: writes go through the current iteration's own allocation only) and EDGEBYTE (no function of package graph - in particular no dense fast path of a colouring or clique function - uses the numeric value of an adjacency byte: any non-zero byte is an edge, so a test `== 1` gives different answers for the same graph held differently). Optimality, exactness and properness of the witnesses are value-level and not decided.",
 		notDecided:  []string{"that CliqueNumber/IndependenceNumber/ChromaticNumber/ChromaticIndex/Degeneracy return the true optimum", "that the returned colouring is proper and uses exactly that many colours; that each maximal clique is reported once", "ChromaticPolynomial values; GreedyColor first-fit; invariance under relabelling and representation"},
 		assumptions: []string{"a witness whose every populating store is dead, or whose length is provably 0, is wrong for every non-empty input"},
 		run: func(c *Ctx, tier string) []*RuleResult {
@@ -223,7 +223,10 @@ func init() {
 			}
 			em := &RuleResult{Rule: "EMIT", Doc: "a clique sent on the result channel is never written again: every write that may reach a sent backing array goes through the current iteration's own allocation and cannot follow a send without a new allocation", MinInst: 1}
 			ruleEmit(c, em, "graph.AllMaximalCliques")
-			return []*RuleResult{lv, ro, em}
+			// the C09 functions must give the same answer for every representation of the same graph: a
+			// dense graph's adjacency bytes count as edges whenever they are non-zero
+			eb := ruleEdgeByte(c, "graph")
+			return []*RuleResult{lv, ro, em, eb}
 		},
 		controls: func(ctl *Ctx) []*RuleResult {
 			lv := &RuleResult{Rule: "LIVE"}
